@@ -157,7 +157,7 @@ fn gen_program_impl(rng: &mut Rng, cfg: &GenCfg, single: bool) -> Prog {
                 let r = a.get_type().unwrap().get_shape().len() as u64;
                 let mut axes: Vec<u64> = (0..r).filter(|_| rng.chance(1, 2)).collect();
                 if rng.chance(1, 15) { axes.push(r + rng.below(2)); }
-                if rng.chance(1, 10) { rng.shuffle(&mut axes); }
+                if rng.chance(1, 2) { rng.shuffle(&mut axes); }
                 (vec![a], Operation::Sum(axes))
             }
             "cumsum" => {
